@@ -14,3 +14,4 @@ open HmcVerif.C14
 #print axioms logspace_generate
 #print axioms normalize_history
 #print axioms never_normalized
+#print axioms normalNormSum_eq
